@@ -349,7 +349,7 @@ func c17Work(c *engine.Ctx) {
 			}
 		}
 	}
-	entAtoms := engine.Atoms("&", "#", "x", "X", ";", "0", "4", "1", "9", "a", "amp", "lt", "quot", "apos", "nbsp", "&amp;", "&#39;", "&#x41;", "&#0;", "varphi", "3", " ", "5", "m", "p", "&#35;", "&#59;", "&#120;", "&#49;", "&num;")
+	entAtoms := engine.Atoms("&", "#", "x", "X", ";", "0", "4", "1", "9", "a", "amp", "lt", "quot", "apos", "nbsp", "&amp;", "&#39;", "&#x41;", "&#0;", "varphi", "3", " ", "5", "m", "p", "&#35;", "&#59;", "&#120;", "&#49;", "&num;", "&#38;", "&#x26;")
 	revs := []map[string]string{{"rev": "none"}, {"rev": "apos"}, {"rev": "both"}}
 	enum("entity", entAtoms, c.Pick(5, 6), revs)
 	// numeric references with many digits: the value must not wrap around to a small one
@@ -408,7 +408,7 @@ func c17Finish(c *engine.Ctx, cov map[string]interface{}) string {
 func init() {
 	register(&engine.Check{
 		ID: "C17", Level: "exploration",
-		Rule:        "ReplaceMultipleWhitespace on all strings ≤8 over {space,\\t,\\n,\\r,\\f,a,b} and ≤5 over blanks, control bytes, 0x85 and 0xA0, and with every byte value next to and between whitespace, vs a regexp reference; ReplaceEntities on all sequences ≤5 over 22 entity fragments × 3 reverse maps: never longer, idempotent, html.UnescapeString unchanged (NUL references excepted), result is a prefix of the argument; the same on 600 numeric references of up to 25 digits (values at and beyond 2^32, 2^63 and 2^64) × 45 contexts (among them unterminated references of up to 42 digits in front); the combined function == ReplaceEntities∘ReplaceMultipleWhitespace on all sequences ≤5 over 17 fragments; html.EscapeAttrVal on all values ≤4 over 16 atoms × origQuote × mustQuote × 3 buffers and xml.EscapeAttrVal ≤5: read back through the lexer as one attribute whose value decodes to the same text, quoting policy, shortest quote; xml.EscapeCDATAVal on all strings ≤7 over {a < & ] > l t ;}",
+		Rule:        "ReplaceMultipleWhitespace on all strings ≤8 over {space,\\t,\\n,\\r,\\f,a,b} and ≤5 over blanks, control bytes, 0x85 and 0xA0, and with every byte value next to and between whitespace, vs a regexp reference; ReplaceEntities on all sequences ≤5 over 32 entity fragments × 3 reverse maps: never longer, idempotent, html.UnescapeString unchanged (NUL references excepted), result is a prefix of the argument; the same on 600 numeric references of up to 25 digits (values at and beyond 2^32, 2^63 and 2^64) × 45 contexts (among them unterminated references of up to 42 digits in front); the combined function == ReplaceEntities∘ReplaceMultipleWhitespace on all sequences ≤5 over 17 fragments; html.EscapeAttrVal on all values ≤4 over 16 atoms × origQuote × mustQuote × 3 buffers and xml.EscapeAttrVal ≤5: read back through the lexer as one attribute whose value decodes to the same text, quoting policy, shortest quote; xml.EscapeCDATAVal on all strings ≤7 over {a < & ] > l t ;}",
 		Assumptions: []string{"entity maps are consistent with HTML (replacement decodes to the same text and is not longer)", "ReplaceMultipleWhitespaceAndEntities is compared with whitespace first, entities second"},
 		Setup:       c17Setup, Work: c17Work, Finish: c17Finish,
 	})
